@@ -40,7 +40,7 @@ TFNAME = {1: '1m', 3: '3m', 5: '5m', 15: '15m', 30: '30m', 45: '45m', 60: '1h', 
 def cfg(inst, q, export):
     tfs, trade, warm, n, fast, chunk = inst
     t = lambda b: "TRUE" if b else "FALSE"
-    return ("SPECIFICATION Spec\nVIEW View\nCHECK_DEADLOCK FALSE\n"
+    return ("SPECIFICATION %s\nVIEW View\nCHECK_DEADLOCK FALSE\n" % ("Spec" if export else "SpecM") +
             "CONSTANTS TFs = {%s} TradeTF = %d Warm = %d N = %d MaxFills = 2 Fast = %s Chunk = %d\n"
             "QStale = %s QEmptyRead = %s QPartialChunk = %s Export = %s\n"
             % (",".join(map(str, tfs)), trade, warm, n, t(fast), chunk, t(q[0]), t(q[1]), t(q[2]), t(export))
@@ -165,6 +165,7 @@ def run_cases(ctx, cases):
     from .. import session as S
     if ctx.quick or len(cases) < 40:
         return [_run(c) for c in cases]
+    import jesse.research, jesse.modes.backtest_mode, jesse.strategies      # fork after import (no session has run here)
     res = S.run_isolated(_run, cases, procs=14, chunk=8)
     for r in res:
         if isinstance(r, tuple) and r and r[0] == 'EXC':
@@ -203,9 +204,12 @@ def judge(ctx, traces, label):
         tid, l = occ[0]
         t = byid[tid]
         for (tid2, l2) in occ[:1]:
+            payload = {"case": t['case'], "event": l, "clause": v}
+            if t['case'].get('src') == 'helper':
+                payload["helper_event"] = t['ev'][l - 1]
             ctx.violation(v, "%s: trace %d (%s, %s routes=%s data=%s W=%d N=%d) event %d: %s; %d trace(s) in this run" % (
-                label, tid, t['case'].get('src'), t['hdr']['mode'], t['hdr']['routes'], t['hdr']['data'], t['hdr']['W'],
-                t['hdr']['N'], l, json.dumps(t['ev'][l - 1])[:700], len(occ)), {"case": t['case'], "event": l, "clause": v})
+                label, tid, t['case'].get('src'), t['hdr']['mode'], t['hdr'].get('routes'), t['hdr'].get('data'), t['hdr']['W'],
+                t['hdr']['N'], l, json.dumps(t['ev'][l - 1])[:700], len(occ)), payload)
         for (tid2, l2) in occ[1:]:
             ctx.violations.append({"sig": v, "detail": "trace %d event %d" % (tid2, l2), "payload": None})
     return verdicts, results, seen
@@ -243,8 +247,9 @@ def run(ctx):
             if r.violation:
                 raise Machinery("CandleStore.tla (repaired constants) violates %s for %r\n%s" % (
                     r.violation["name"], inst, r.violation["trace"][:3000]))
-            unc = [a for a, (d, g) in r.coverage.items() if g == 0 and a in (
-                ("AddChunk", "BeginChunk", "FFill", "FEndMinute") if inst[4] else ("AddMinute", "Fill", "EndMatch"))]
+            need = (("AddChunk", "BeginChunk", "FFill", "FEndMinute") if inst[4] else ("AddMinute", "Fill", "EndMatch")) + \
+                   ("Terminate",) + (("WarmupStart",) if inst[2] else ("BeginSim",))
+            unc = [a for a in need if r.coverage.get(a, (0, 0))[1] == 0]
             if unc:
                 raise Machinery("vacuity: actions never taken in %s: %s" % (lab, unc))
         else:
@@ -264,15 +269,15 @@ def run(ctx):
         edges = [json.loads(e[1]) for e in tlc.tagged(r, "EDGE")]
         n_edges += len(edges)
         ws = maximal_witnesses([e["hist"] for e in edges])
-        if ctx.quick and len(ws) > 45:
-            ws = rng.sample(ws, 45)
+        if ctx.quick and len(ws) > 35:
+            ws = rng.sample(ws, 35)
         for h in ws:
             cid += 1
             cases.append(witness_to_case(inst, h, cid))
     n_r = len(cases)
     ctx.log("R: %d model transitions, %d maximal witnesses to replay" % (n_edges, n_r))
     # ------------------------------------------------------------ T
-    n_t = ctx.pick(110, 2600)
+    n_t = ctx.pick(100, 1800)
     cases += random_cases(ctx, rng, n_t, first_id=cid + 1)
     traces = run_cases(ctx, cases)
     ctx.log("drivers: %d real backtests done" % len(traces))
@@ -304,6 +309,13 @@ def run(ctx):
                 break
     samples.append({"kind": "helper", "events": helpers[1]['ev'][:2]})
     tfs_read = sorted({e['T'] for t in traces for e in t['ev'] if e['k'] == 'read'})
+    # coverage only (TLC accepts either form): how gapping minutes were stored, per simulator
+    gaps = {"step": [0, 0], "fast": [0, 0]}
+    for t in traces:
+        for sy in t['hdr']['syms']:
+            for kk in range(1, min(len(sy['inp']), len(sy['fin']))):
+                if sy['inp'][kk][1] != sy['inp'][kk - 1][2]:
+                    gaps[t['hdr']['mode']][0 if sy['fin'][kk] == sy['inp'][kk] else 1] += 1
     ctx.evaluations = len(traces) + len(helpers)
     ctx.coverage.update({
         "traces_validated_against_impl": len(traces) + len(helpers), "model_transitions": n_edges,
@@ -317,7 +329,8 @@ def run(ctx):
         "runs_with_length_not_multiple_of_trading_tf": sum(
             1 for t in traces if t['hdr']['N'] % CR.TFMIN[t['hdr']['routes'][0].split(':')[1]] != 0),
         "runs_ending_in_exception": sum(1 for t in traces if t['hdr']['exc'] != 'none'),
-        "timeframes_read_minutes": tfs_read, "rejected_clauses": {k: len(v) for k, v in seen.items()},
+        "timeframes_read_minutes": tfs_read,
+        "gapping_minutes_stored_raw_vs_normalised": {m: {"raw": g[0], "normalised": g[1]} for m, g in gaps.items()}, "rejected_clauses": {k: len(v) for k, v in seen.items()},
         "trace_events_checked_by_tlc": sum(r.generated for r in results), "samples": samples,
         "rule": "R: one backtest per maximal shortest witness of the transitions of CandleStore.tla (as-the-code constants), "
                 "scripted fill pattern; T: random policy backtests. A case is non-trivial when a timeframe > 1m was read "
@@ -331,7 +344,10 @@ def replay(ctx, rp):
     from ..drivers import candle_runs as CR
     case = rp["payload"]["case"]
     if case.get('src') == 'helper':
-        print("helper traces are regenerated by the seed; rerun the check with the same --seed")
+        tr = CR.rerun_helper_event(rp["payload"]["helper_event"])
+        tr['case'] = dict(src='helper', id=1)
+        verdicts, results, seen = judge(ctx, [tr], "replay")
+        print("replay verdicts:", {k: v[:3] for k, v in seen.items()} or "ok")
         return
     case['trading'] = [tuple(x) for x in case['trading']]
     case['data'] = [tuple(x) for x in case['data']]
